@@ -727,20 +727,21 @@ const (
 )
 
 type netScenario struct {
-	k        *mon.Case
-	trigger  string
-	V, O, B  *p2pnet.Node
-	served   atomic.Int64 // V's "ok" handler invocations for requests from O
-	servedB  atomic.Int64
-	hist     []string
-	hmu      sync.Mutex
-	gctx     context.Context
-	gcancel  context.CancelFunc
-	gwg      sync.WaitGroup
-	rlPen    int
-	interval time.Duration
-	okCalls  int // "ok" request messages sent O -> V
-	okSeq    int
+	k           *mon.Case
+	trigger     string
+	V, O, B     *p2pnet.Node
+	served      atomic.Int64 // V's "ok" handler invocations for requests from O
+	servedB     atomic.Int64
+	syncInvalid atomic.Int64 // invalid sync-style requests seen by the victim's handler
+	hist        []string
+	hmu         sync.Mutex
+	gctx        context.Context
+	gcancel     context.CancelFunc
+	gwg         sync.WaitGroup
+	rlPen       int
+	interval    time.Duration
+	okCalls     int // "ok" request messages sent O -> V
+	okSeq       int
 }
 
 func (ns *netScenario) log(f string, a ...any) {
@@ -796,6 +797,9 @@ func (ns *netScenario) startNode(ip string, victim bool, blacklist []string) (*p
 			// sync-style endpoint: like pkg/consensus/sync it bans the sender of an invalid request
 			must(c.RegisterRPCHandler("getBlocksFromID", func(w p2p.ResponseWriter, req *p2p.Request) {
 				if len(req.Data) != 34 || req.Data[0] != 0x0a || req.Data[1] != 0x20 { // {1: bytes(32)}
+					if victim {
+						ns.syncInvalid.Add(1)
+					}
 					c.BanPeer(req.PeerID)
 					return
 				}
@@ -985,11 +989,11 @@ func runNetBan(k *mon.Case) {
 	case "unknown-procedure-response":
 		err = ns.raw(ns.O, ns.V, true, p2p.VerifEncodeResponse("11111111-2222-3333-4444-555555555555", "noSuchProcedure", []byte("x"), ""))
 	case "invalid-sync-request:nil-data":
-		_, _ = ns.request(ns.O, ns.V, "getBlocksFromID", nil)
+		err = ns.raw(ns.O, ns.V, false, p2p.VerifEncodeRequest("11111111-2222-3333-4444-666666666666", "getBlocksFromID", nil))
 	case "invalid-sync-request:undecodable":
-		_, _ = ns.request(ns.O, ns.V, "getBlocksFromID", []byte{0x0a, 0xff, 0x01})
+		err = ns.raw(ns.O, ns.V, false, p2p.VerifEncodeRequest("11111111-2222-3333-4444-666666666666", "getBlocksFromID", []byte{0x0a, 0xff, 0x01}))
 	case "invalid-sync-request:wrong-id-length":
-		_, _ = ns.request(ns.O, ns.V, "getBlocksFromID", append([]byte{0x0a, 0x1f}, make([]byte, 31)...))
+		err = ns.raw(ns.O, ns.V, false, p2p.VerifEncodeRequest("11111111-2222-3333-4444-666666666666", "getBlocksFromID", append([]byte{0x0a, 0x1f}, make([]byte, 31)...)))
 	case "rate-limit:penalty-100", "rate-limit:penalty-50x2":
 		// the limiter's interval is 1 h here, so "one interval" is the whole scenario
 		need := rlLimit + 1
@@ -1048,6 +1052,25 @@ func runNetBan(k *mon.Case) {
 		return
 	}
 	k.Count("offences:"+ns.trigger, 1)
+
+	// evidence from the victim that the offending message was processed there (its own log line
+	// or handler invocation); only then is "no ban" its fault
+	delivered := func() bool { return true }
+	switch {
+	case strings.HasPrefix(ns.trigger, "malformed-"):
+		delivered = func() bool { return ns.V.Logger.Count("decode-error") > 0 }
+	case strings.HasPrefix(ns.trigger, "unknown-procedure-"):
+		delivered = func() bool { return ns.V.Logger.Count("unregistered") > 0 }
+	case strings.HasPrefix(ns.trigger, "invalid-sync-request"):
+		delivered = func() bool { return ns.syncInvalid.Load() > 0 }
+	case strings.HasPrefix(ns.trigger, "rate-limit"):
+		delivered = func() bool { return ns.served.Load() > int64(rlLimit) }
+	}
+	if !waitUntil(watchdog, func() bool { return delivered() || ns.bannedAtV(offIP) }) {
+		k.Inconclusive("offence-not-processed-by-victim")
+		k.Count("offence_not_processed_by_victim:"+ns.trigger, 1)
+		return
+	}
 
 	// (a) penalised up to a ban
 	if !waitUntil(watchdog, func() bool { return ns.bannedAtV(offIP) }) {
@@ -1303,7 +1326,16 @@ func runNetBlacklist(k *mon.Case) {
 				return
 			}
 		}
-		if err := ns.B.ConnectTo(bg, ns.V); err != nil || !ns.V.Connected(ns.B) {
+		var err error
+		for try := 0; try < 3; try++ { // a dial can time out on a stalled machine; refusal is persistent
+			cctx, cancel := context.WithTimeout(bg, 20*time.Second)
+			err = ns.B.ConnectTo(cctx, ns.V)
+			cancel()
+			if err == nil && ns.V.Connected(ns.B) {
+				break
+			}
+		}
+		if err != nil || !ns.V.Connected(ns.B) {
 			k.Violation("non-blacklisted-ip-refused", "a peer on an IP that is neither banned nor blacklisted could not connect", ns.wit(map[string]any{"error": fmt.Sprint(err)}))
 			return
 		}
